@@ -6,49 +6,66 @@ Executable, path-addressed versions of the transitions of `Step` / `SStep`, and 
 replays an observed event trace of the implementation (resolver invocations `S`, completions of
 harness awaitables `R`, observed cancellations `C`, delivery of the response `D`) against the
 model: every observed event must correspond to an enabled transition, and at the end the model
-must be able to reach a final configuration; its response is the prediction.
+must be able to reach a configuration in which only abandoned work is left; its response is the
+prediction.
+
+The monitor chooses *which* enabled transitions explain an event (search strategy, trusted);
+every single move is a transition of `Step` / `SStep` (`Gql/Proofs/Monitor.lean`).
 -/
 namespace Gql.Async
 
-/-- Apply `op ab sub` to the sub-forest starting at the member addressed by `p`
-(`ab`: the parent of that member abandons its children). -/
-def modifyAt (op : Bool → Cfg → Option Cfg) : Bool → Cfg → Path → Option Cfg
-  | _, .nil, _ => none
-  | _, .cons _ _ _ _ _ _, [] => none
-  | ab, f@(.cons _ _ _ _ _ _), [0] => op ab f
-  | _, .cons nn g res st ch rest, 0 :: j :: p =>
+/-- Apply `op sub` to the sub-forest starting at the member addressed by `p`. -/
+def modifyAt (op : Cfg → Option Cfg) : Cfg → Path → Option Cfg
+  | .nil, _ => none
+  | .cons _ _ _ _ _ _, [] => none
+  | f@(.cons _ _ _ _ _ _), [0] => op f
+  | .cons nn g res st ch rest, 0 :: j :: p =>
     if st.launched then
-      (modifyAt op st.abandons ch (j :: p)).map (fun ch' => .cons nn g res st ch' rest)
+      (modifyAt op ch (j :: p)).map (fun ch' => .cons nn g res st ch' rest)
     else none
-  | ab, .cons nn g res st ch rest, (i + 1) :: p =>
-    (modifyAt op ab rest (i :: p)).map (fun rest' => .cons nn g res st ch rest')
+  | .cons nn g res st ch rest, (i + 1) :: p =>
+    (modifyAt op rest (i :: p)).map (fun rest' => .cons nn g res st ch rest')
 
-def opResolve (_ab : Bool) : Cfg → Option Cfg
+def opResolve : Cfg → Option Cfg
   | .cons nn g res (.wait (k + 1)) ch rest =>
     some (.cons nn g res (if k = 0 then .ready else .wait k) ch rest)
   | _ => none
 
-def opFire (_ab : Bool) : Cfg → Option Cfg
+def opFire : Cfg → Option Cfg
   | .cons nn g res .ready ch rest =>
     let r := fireWith nn res ch (launchF ch)
     some (.cons nn g res r.1 r.2 rest)
   | _ => none
 
-def opComplete (_ab : Bool) : Cfg → Option Cfg
+def opComplete : Cfg → Option Cfg
   | .cons nn g res .run ch rest =>
-    if hasFailed ch then some (.cons nn g res (errSt nn) ch rest)
-    else match forestVals ch with
-      | some v => some (.cons nn g res (.done v) ch rest)
-      | none => none
+    match forestVals ch with
+    | some v => some (.cons nn g res (.done v) ch rest)
+    | none => none
   | _ => none
 
-def opCancel (ab : Bool) : Cfg → Option Cfg
-  | .cons nn g res st ch rest =>
-    if ab && st.active then some (.cons nn g res .cancelled (cancelF ch) rest) else none
-  | .nil => none
+def opFail : Cfg → Option Cfg
+  | .cons nn g res .run ch rest =>
+    if hasFailed ch then some (.cons nn g res .failing (cancelU ch) rest) else none
+  | _ => none
+
+def opAbort : Cfg → Option Cfg
+  | .cons nn g (.comp .aiter) .run ch rest =>
+    if hasFailed ch then some (.cons nn g (.comp .aiter) (errSt nn (hasPending ch)) ch rest) else none
+  | _ => none
+
+def opFailDone : Cfg → Option Cfg
+  | .cons nn g res .failing ch rest =>
+    if hasPending ch then none else some (.cons nn g res (errSt nn false) ch rest)
+  | _ => none
+
+def opUnwound : Cfg → Option Cfg
+  | .cons nn g res .unwinding ch rest =>
+    if hasPending ch then none else some (.cons nn g res .cancelled ch rest)
+  | _ => none
 
 /-- serial root: start member `j` of the children of the root wrapper -/
-def opStartSerial (j : Nat) (_ab : Bool) : Cfg → Option Cfg
+def opStartSerial (j : Nat) : Cfg → Option Cfg
   | .cons nn g res .run ch rest =>
     if prefixDone ch && hasIdle ch && firstIdle ch == j then some (.cons nn g res .run (startNext ch) rest)
     else none
@@ -62,15 +79,16 @@ def newStarts (pfx : Path) (isField : Bool) : Nat → Cfg → Cfg → List Path
   | i, .cons _ _ _ st ch rest, .cons _ _ res' st' ch' rest' =>
     let here := if st == .idle && st' != .idle && isField then [pfx ++ [i]] else []
     let below := match res' with
-      | .comp l => newStarts (pfx ++ [i]) (!l) 0 ch ch'
+      | .comp k => newStarts (pfx ++ [i]) (k == .obj) 0 ch ch'
       | _ => []
     here ++ below ++ newStarts pfx isField (i + 1) rest rest'
 
-/-- all positions with their state, parents first -/
-def positions (pfx : Path) : Nat → Cfg → List (Path × NodeSt)
+/-- all positions with their state, parents first; `ab`: some strict ancestor has completed
+(the position is abandoned work) -/
+def positions (pfx : Path) (ab : Bool) : Nat → Cfg → List (Path × NodeSt × Bool)
   | _, .nil => []
   | i, .cons _ _ _ st ch rest =>
-    (pfx ++ [i], st) :: (positions (pfx ++ [i]) 0 ch ++ positions pfx (i + 1) rest)
+    (pfx ++ [i], st, ab) :: (positions (pfx ++ [i]) (ab || st.settled) 0 ch ++ positions pfx ab (i + 1) rest)
 
 structure MState where
   cfg : Cfg
@@ -78,25 +96,61 @@ structure MState where
   steps : Nat := 0
   delivered : Option Val := none
 
-/-- Fire every enabled transition that causes no resolver invocation: resumptions of nodes
-whose completion starts no field, completions and failures of running nodes. -/
-def settle : Nat → MState → MState
+def stateAt (c : Cfg) (p : Path) : Option NodeSt := (nodeAt c p).map (fun x => x.2.2.1)
+
+/-- after resuming an item of an async-iterator list that failed at once: the iteration is
+aborted (`abort`), if that is what the parent is -/
+def abortParent (c : Cfg) (p : Path) : Cfg :=
+  match stateAt c p with
+  | some (.failed _) =>
+    match modifyAt opAbort c p.dropLast with
+    | some c' => c'
+    | none => c
+  | _ => c
+
+def fireAt (c : Cfg) (p : Path) : Option Cfg :=
+  (modifyAt opFire c p).map (fun c' => abortParent c' p)
+
+/-- which transitions `settle` may use -/
+inductive Mode where
+  | light   -- resumptions that invoke no resolver, completions
+  | full    -- also: failing gathers cancel and wait, cancelled tasks finish
+  deriving DecidableEq
+
+/-- One enabled transition (of the kinds allowed by `mode`) at a position selected by `sel`,
+that causes no resolver invocation. -/
+def settleStep (mode : Mode) (sel : Path → Bool → Bool) (c : Cfg) : Option Cfg :=
+  (positions [] false 0 c).findSome? (fun (p, st, ab) =>
+    if !sel p ab then none else
+    match st with
+    | .ready =>
+      match fireAt c p with
+      | some c' => if (newStarts [] false 0 c c').isEmpty then some c' else none
+      | none => none
+    | .run =>
+      match modifyAt opComplete c p with
+      | some c' => some c'
+      | none => if mode == .full then modifyAt opFail c p else none
+    | .failing => if mode == .full then modifyAt opFailDone c p else none
+    | .unwinding => if mode == .full then modifyAt opUnwound c p else none
+    | _ => none)
+
+def settle (mode : Mode) (sel : Path → Bool → Bool) : Nat → MState → MState
   | 0, m => m
   | fuel + 1, m =>
-    let cands := positions [] 0 m.cfg
-    let try1 : Option Cfg := cands.findSome? (fun (p, st) =>
-      match st with
-      | .ready =>
-        match modifyAt opFire false m.cfg p with
-        | some c' => if (newStarts [] false 0 m.cfg c').isEmpty then some c' else none
-        | none => none
-      | .run => modifyAt opComplete false m.cfg p
-      | _ => none)
-    match try1 with
-    | some c' => settle fuel { m with cfg := c', steps := m.steps + 1 }
+    match settleStep mode sel m.cfg with
+    | some c' => settle mode sel fuel { m with cfg := c', steps := m.steps + 1 }
     | none => m
 
 def fuelOf (c : Cfg) : Nat := measure c + 1
+
+def everywhere : Path → Bool → Bool := fun _ _ => true
+/-- positions that are not abandoned work -/
+def liveOnly : Path → Bool → Bool := fun _ ab => !ab
+/-- positions strictly below `q` -/
+def below (q : Path) : Path → Bool → Bool := fun p _ => q.isPrefixOf p && p.length > q.length
+
+def settleLight (m : MState) : MState := settle .light everywhere (fuelOf m.cfg) m
 
 inductive Ev where
   | R (p : Path)
@@ -104,31 +158,39 @@ inductive Ev where
   | C (p : Path)
   | D
 
-def stateAt (c : Cfg) (p : Path) : Option NodeSt := (nodeAt c p).map (fun x => x.2.2.1)
-
 /-- prefixes of a path, shortest first, excluding the empty one -/
 def prefixes (p : Path) : List Path := (List.range p.length).map (fun n => p.take (n + 1))
 
-/-- cancel at the topmost enabled position along `p`; nothing to do when the task (or one
-above it) has already been cancelled -/
-def cancelAlong (c : Cfg) (p : Path) : Option Cfg :=
-  if (prefixes p).any (fun q => stateAt c q == some .cancelled) then some c
-  else (prefixes p).findSome? (fun q => modifyAt opCancel false c q)
+/-- the task at `p`, or one that awaits it, has been cancelled -/
+def isCancelledAt (c : Cfg) (p : Path) : Bool :=
+  (prefixes p).any (fun q => stateAt c q == some .unwinding || stateAt c q == some .cancelled)
 
 /-- the node is a list item that the list loop never reached (the loop was aborted by an
 earlier item): its awaitable exists all the same and may complete, with no effect -/
 def isUnreachedItem (c : Cfg) (p : Path) : Bool :=
   match stateAt c p, nodeAt c p.dropLast with
-  | some .idle, some (_, .comp true, _, _) => true
+  | some .idle, some (_, .comp .list, _, _) => true
+  | some .idle, some (_, .comp .aiter, _, _) => true
   | _, _ => false
+
+/-- Explain an observed cancellation at `p`: some gather above `p` has a child that raised (after
+settling everything below that gather); it cancels its other awaitables. Lowest gather first. -/
+def explainCancel (m : MState) (p : Path) : Option MState :=
+  if isCancelledAt m.cfg p then some m else
+  let gathers := ((prefixes p).reverse.drop 1).filter (fun q => stateAt m.cfg q == some .run)
+  gathers.findSome? (fun q =>
+    let m' := settle .full (below q) (fuelOf m.cfg) m
+    match modifyAt opFail m'.cfg q with
+    | some c' => if isCancelledAt c' p then some { m' with cfg := c', steps := m'.steps + 1 } else none
+    | none => none)
 
 def stepEv (serial : Bool) (m : MState) : Ev → Except String MState
   | .R p =>
     if !m.queue.isEmpty then .error "resolver invocations outstanding before a completion"
-    else match modifyAt opResolve false m.cfg p with
-      | some c' => .ok (settle (fuelOf c') { m with cfg := c', steps := m.steps + 1 })
+    else match modifyAt opResolve m.cfg p with
+      | some c' => .ok (settleLight { m with cfg := c', steps := m.steps + 1 })
       | none =>
-        if isUnreachedItem m.cfg p then .ok m
+        if isCancelledAt m.cfg p || isUnreachedItem m.cfg p then .ok m
         else .error "completion of an awaitable that is not pending in the model"
   | .S p =>
     match m.queue with
@@ -136,49 +198,51 @@ def stepEv (serial : Bool) (m : MState) : Ev → Except String MState
     | [] =>
       -- the nearest ancestor that is ready to resume, or the serial root starting its next field
       let anc := (prefixes p).reverse.drop 1
-      let fired : Option Cfg := anc.findSome? (fun q =>
+      let fired : Option (Cfg × MState) := anc.findSome? (fun q =>
         match stateAt m.cfg q with
-        | some .ready => modifyAt opFire false m.cfg q
+        | some .ready => (fireAt m.cfg q).map (fun c' => (c', m))
         | _ => none)
-      let fired : Option Cfg := match fired with
-        | some c' => some c'
+      let fired : Option (Cfg × MState) := match fired with
+        | some x => some x
         | none =>
           match serial, p with
-          | true, [0, j] => modifyAt (opStartSerial j) false m.cfg [0]
+          | true, [0, j] =>
+            -- the earlier root fields have completed: everything live is settled
+            let m' := settle .full liveOnly (fuelOf m.cfg) m
+            (modifyAt (opStartSerial j) m'.cfg [0]).map (fun c' => (c', m'))
           | _, _ => none
       match fired with
       | none => .error "resolver invoked but no transition of the model starts it"
-      | some c' =>
-        match newStarts [] false 0 m.cfg c' with
+      | some (c', m') =>
+        match newStarts [] false 0 m'.cfg c' with
         | q :: qs =>
-          if q == p then .ok (settle (fuelOf c') { m with cfg := c', queue := qs, steps := m.steps + 1 })
+          if q == p then
+            .ok (settleLight { m' with cfg := c', queue := qs, steps := m'.steps + 1 })
           else .error "resolver invoked is not the first one the model starts"
         | [] => .error "the enabled transition starts no resolver"
   | .C p =>
     if !m.queue.isEmpty then .error "resolver invocations outstanding before a cancellation"
-    else match cancelAlong m.cfg p with
-      | some c' => .ok (settle (fuelOf c') { m with cfg := c', steps := m.steps + 1 })
-      | none => .error "cancellation observed where no failed or nulled parent abandons the task"
+    else match explainCancel m p with
+      | some m' => .ok (settleLight m')
+      | none => .error "cancellation observed but no gather above it has a child that raised"
   | .D =>
-    match rootData m.cfg with
-    | some v => .ok { m with delivered := some v }
+    let m' := settle .full liveOnly (fuelOf m.cfg) m
+    match rootData m'.cfg with
+    | some v => .ok { m' with delivered := some v }
     | none => .error "response delivered before the root completed in the model"
 
-/-- After the trace: whatever is still active must be abandoned work that can be cancelled. -/
-def finish : Nat → MState → Except String MState
-  | 0, m => .ok m
-  | fuel + 1, m =>
-    match (positions [] 0 m.cfg).find? (fun (_, st) => st.active) with
-    | none => .ok m
-    | some (p, _) =>
-      match cancelAlong m.cfg p with
-      | some c' => finish fuel (settle (fuelOf c') { m with cfg := c', steps := m.steps + 1 })
-      | none => .error ("a live task never completed: " ++ toString p)
+/-- After the trace: whatever is still pending must be abandoned work (below a completed
+position): items an aborted iteration never requested, tasks left in the background. -/
+def finish (m : MState) : Except String MState :=
+  let m' := settle .full everywhere (fuelOf m.cfg) m
+  match (positions [] false 0 m'.cfg).find? (fun (_, st, ab) => st.pending && !ab) with
+  | none => .ok m'
+  | some (p, _, _) => .error ("a live task never completed: " ++ toString p)
 
 def runTrace (serial : Bool) (m : MState) : Nat → List Ev → Except String MState
   | _, [] =>
     if !m.queue.isEmpty then .error "resolver invocations outstanding at the end of the trace"
-    else finish (fuelOf m.cfg) m
+    else finish m
   | n, e :: es =>
     match stepEv serial m e with
     | .ok m' => runTrace serial m' (n + 1) es
@@ -186,6 +250,6 @@ def runTrace (serial : Bool) (m : MState) : Nat → List Ev → Except String MS
 
 /-- Initial configuration of the monitor for a root forest. -/
 def initCfg (serial : Bool) (fields : Cfg) : Cfg :=
-  if serial then .cons false 0 (.comp false) .run fields .nil else initQuery fields
+  if serial then .cons false 0 (.comp .obj) .run fields .nil else initQuery fields
 
 end Gql.Async
